@@ -575,4 +575,17 @@ example :
     let cs : List Cqe := [⟨.op 1, 3, 2⟩, ⟨.reserved 1, 0, 0⟩, ⟨.op 1, 0, 0⟩, ⟨.op 0, 1, 2⟩]
     (processAll s {} cs).2.wakes = [42, 7] := by decide
 
+theorem drainCq_acc (s : Sys) (a : Acc) : (s.drainCq a).2 = (processAll s a s.cq).2 := by
+  simp [Sys.drainCq, processAll]
+
+/-- The same for `drainCq`, the function the `life` driver runs for the completion loop of
+`Ring::poll`: a `Running` operation with stored waker `w` is woken by the poll whose queue
+contains a completion that makes it ready. -/
+theorem C03_drain_wakes_ready (s : Sys) (a : Acc) (i : Nat) (o : Op) (r : Results) (w : Nat)
+    (ho : s.ops[i]? = some o) (hst : o.status = .running r) (hw : o.waker = some w)
+    (hex : ∃ c ∈ s.cq, addressed i c = true ∧ readies o c = true) :
+    w ∈ (s.drainCq a).2.wakes := by
+  rw [drainCq_acc]
+  exact C03_batch_wakes_ready s.cq s a i o r w ho hst hw hex
+
 end A10.Life
